@@ -584,6 +584,8 @@ func rvRun(in []byte) (interface{}, error) {
 		tr.Emit(tracer.Ev{"e": "efile", "file": fi, "objs": jobjs, "ops": jops, "walk_err": walkErr, "bytes": file.Len()})
 		// the real loader on the real writer's output
 		nr, footerOK, lerr := 0, false, ""
+		var kept []*rdb.BinEntry // what a consumer holds on to while the loader moves on
+		lateOK := true
 		ab, pan = runAbortable(func() {
 			l := rdb.NewLoader(bytes.NewReader(file.Bytes()))
 			if err := l.Header(); err != nil {
@@ -600,6 +602,7 @@ func rvRun(in []byte) (interface{}, error) {
 					break
 				}
 				nr++
+				kept = append(kept, e)
 				ev := tracer.Ev{"e": "erec", "file": fi, "i": nr, "db": int(e.DB), "ex": -1, "id": -1, "key_ok": false, "val_ok": false}
 				for xi, x := range expiries {
 					if x == e.ExpireAt {
@@ -624,11 +627,24 @@ func rvRun(in []byte) (interface{}, error) {
 				return
 			}
 			footerOK = true
+			// the records delivered earlier must still say the same after the loader has moved on to the end of the file
+			for i, e := range kept {
+				if i < len(objs) {
+					o := objs[i]
+					got, derr := rdb.DecodeDump(e.Value)
+					gv, ok := rvFromReal(got)
+					sm, nm := rvSame(o.want, gv)
+					if !bytes.Equal(e.Key, o.key) || e.DB != o.db || e.ExpireAt != expiries[o.ex] || derr != nil || !ok || !sm || !nm {
+						lateOK = false
+						lerr += fmt.Sprintf(" record %d changed after the loader advanced: key %q (written %q)", i+1, e.Key, o.key)
+					}
+				}
+			}
 		})
 		if ab != nil || pan != "" {
 			lerr += fmt.Sprintf(" abort/panic: %v %s", ab, pan)
 		}
-		tr.Emit(tracer.Ev{"e": "eend", "file": fi, "records": nr, "footer_ok": footerOK, "err": lerr})
+		tr.Emit(tracer.Ev{"e": "eend", "file": fi, "records": nr, "footer_ok": footerOK, "late_ok": lateOK, "err": lerr})
 		stats["files"]++
 		stats["file_objects"] += len(objs)
 	}
